@@ -418,16 +418,21 @@ class AttributeCollection(MutableMapping[int, Attribute]):
         return flag, attr, data[3 : length + 3]
 
     def parse(self, data: Buffer, negotiated: Negotiated) -> AttributeCollection:
-        if not data:
-            return self
+        # one attribute per turn of the loop: one level of recursion per attribute made a long
+        # (valid) list of attributes end in RecursionError
+        while data:
+            data = self._parse_attribute(data, negotiated)
+        return self
 
+    def _parse_attribute(self, data: Buffer, negotiated: Negotiated) -> Buffer:
+        """Parse the attribute at the head of data, return what follows it (nothing when parsing stops)."""
         try:
             # We do not care if the attribute are transitive or not as we do not redistribute
             flag = Attribute.Flag(data[0])
             aid = data[1]
         except IndexError:
             self.add(TreatAsWithdraw())
-            return self
+            return b''
 
         try:
             offset = 3
@@ -438,13 +443,13 @@ class AttributeCollection(MutableMapping[int, Attribute]):
                 length = (length << 8) + data[3]
         except IndexError:
             self.add(TreatAsWithdraw(aid))
-            return self
+            return b''
 
         if len(data) < offset + length:
             # RFC 7606 4: the declared length runs past the end of the attribute block, the attribute
             # must not be read as a shorter one (slicing would silently truncate it)
             self.add(TreatAsWithdraw(aid))
-            return self
+            return b''
 
         data = data[offset:]
         left = data[length:]
@@ -473,20 +478,20 @@ class AttributeCollection(MutableMapping[int, Attribute]):
                 ),
                 'parser',
             )
-            return self.parse(left, negotiated)
+            return left
 
         # handle the attribute if we know it
         if Attribute.registered(aid, flag):
             if length == 0 and kls and not kls.VALID_ZERO:
                 self.add(TreatAsWithdraw(aid))
-                return self.parse(left, negotiated)
+                return left
 
             try:
                 decoded: Attribute = Attribute.unpack(aid, flag, attribute, negotiated)
             except (IndexError, ValueError) as exc:
                 if kls and kls.TREAT_AS_WITHDRAW:
                     self.add(TreatAsWithdraw(aid))
-                    return self.parse(left, negotiated)
+                    return left
                 # DISCARD was honoured for Notify below but not here, so an attribute
                 # RFC 7606 says to drop escaped as a raw ValueError instead: AGGREGATOR
                 # at any length but 0 or 6 came out of Update.unpack_message untyped,
@@ -494,19 +499,19 @@ class AttributeCollection(MutableMapping[int, Attribute]):
                 # into a session reset
                 if kls and kls.DISCARD:
                     self.add(Discard())
-                    return self.parse(left, negotiated)
+                    return left
                 raise exc
             except Notify as exc:
                 if kls and kls.TREAT_AS_WITHDRAW:
                     self.add(TreatAsWithdraw())
-                    return self.parse(left, negotiated)
+                    return left
                 if kls and kls.DISCARD:
                     self.add(Discard())
-                    return self.parse(left, negotiated)
+                    return left
                 raise exc
 
             self.add(decoded)
-            return self.parse(left, negotiated)
+            return left
 
         # Note: Unknown attributes are handled below via GenericAttribute for transitive
         # attributes, or logged/discarded for others. This differs from capability's
@@ -529,7 +534,7 @@ class AttributeCollection(MutableMapping[int, Attribute]):
                     ),
                     'parser',
                 )
-                return self.parse(left, negotiated)
+                return left
             # Attributes not in TREAT_AS_WITHDRAW or DISCARD fall through to this log
             # This catches implementation gaps - if this fires, add aid to one of the lists
             log.debug(
@@ -540,7 +545,7 @@ class AttributeCollection(MutableMapping[int, Attribute]):
                 ),
                 'parser',
             )
-            return self.parse(left, negotiated)
+            return left
 
         # it is an unknown transitive attribute we need to pass on
         if flag & Attribute.Flag.TRANSITIVE:
@@ -554,16 +559,16 @@ class AttributeCollection(MutableMapping[int, Attribute]):
                 )
             except IndexError:
                 self.add(TreatAsWithdraw(aid), attribute)
-                return self.parse(left, negotiated)
+                return left
             self.add(decoded_generic, attribute)
-            return self.parse(left, negotiated)
+            return left
 
         # it is an unknown non-transitive attribute we can ignore.
         log.debug(
             lambda: 'ignoring unknown non-transitive attribute (flag 0x{:02X}, aid 0x{:02X})'.format(flag, aid),
             'parser',
         )
-        return self.parse(left, negotiated)
+        return left
 
     def merge_attributes(self) -> None:
         as2path_attr = self[Attribute.CODE.AS_PATH]
